@@ -290,14 +290,15 @@ end UniformContainer
 def makeUniformContainer {α δ : Type} (D : StdDist Int δ) (c : List α) : Option (UniformContainer α δ) :=
   (makeUniformIndices c).map (fun p => UniformContainer.ctor D c p)
 
-/-! ## scripts: several distribution objects, several variates, one generator
+/-! ## scripts: several distribution objects, several variates, two generators
 
 What a program can do with the public interface of `distribution::basic` and `variate` when it holds
 several objects at once: construct, copy (copy construction, copy assignment and — the wrapped standard
 distributions being plain aggregates of scalars — move), swap, draw in any interleaving, `reset()`,
 `param(p)`, compare, read `min()`/`max()`, build variates from a distribution *in whatever state it is*,
-copy variates (both copies keep referring to the same generator), and call the generator directly in
-between.  Objects live in numbered slots; using an empty slot is outside every precondition
+copy and assign variates (the target then refers to the *source's* generator), and call the generators
+directly in between.  There are two generators of the same type (`false` / `true`), so that "which generator
+does this variate refer to" is observable.  Objects live in numbered slots; using an empty slot is outside every precondition
 (`emptyDeref`). -/
 
 /-- one step of a script -/
@@ -306,16 +307,16 @@ inductive Act (β : Type) where
   | new2 (i : Nat) (t1 t2 : DVal β)        -- `D_i = basic(t1, t2)`
   | copy (i j : Nat) (assign : Bool)       -- `D_i(D_j)` / `D_i = D_j` (`assign`: `D_i` must exist)
   | swap (i j : Nat)                        -- `std::swap(D_i, D_j)`
-  | draw (i : Nat)                          -- `D_i(gen)`
+  | draw (i : Nat) (w : Bool)               -- `D_i(gen_w)`
   | reset (i : Nat)                         -- `D_i.reset()`
   | setParam (i : Nat) (p : Param2 β)      -- `D_i.param(p)`
   | eq (i j : Nat)                          -- `D_i == D_j`
   | look (i : Nat)                          -- `D_i.min()`, `D_i.max()`, `D_i.distribution().param()`, `os << D_i`
-  | varD (k i : Nat)                        -- `V_k = variate(ref(gen), D_i)` (also `make_variate`)
-  | varP (k : Nat) (p : Param2 β)          -- `V_k = variate(ref(gen), p)`
+  | varD (k i : Nat) (w : Bool)             -- `V_k = variate(ref(gen_w), D_i)` (also `make_variate`)
+  | varP (k : Nat) (p : Param2 β) (w : Bool)  -- `V_k = variate(ref(gen_w), p)`
   | varCopy (k l : Nat) (assign : Bool)    -- `V_k(V_l)` / `V_k = V_l`
   | vdraw (k : Nat)                         -- `V_k()`
-  | raw                                     -- `gen()`
+  | raw (w : Bool)                          -- `gen_w()`
   deriving Repr
 
 /-- what a step lets the program observe; `ν` is the type of drawn values (`DVal β` on the fcppt side,
@@ -339,31 +340,35 @@ def upd {α : Type} (f : Nat → Option α) (i : Nat) (v : Option α) : Nat → 
 /-- the objects of the fcppt side -/
 structure ObjsF (δ : Type) where
   dist : Nat → Option (Basic δ)
-  var : Nat → Option (Variate δ)
+  var : Nat → Option (Variate δ × Bool)    -- the variate and which generator its `generator_` refers to
 
-/-- the objects of the std side: a "variate" is a copy of the distribution used with the same engine -/
+/-- the objects of the std side: a "variate" is a copy of the distribution and the engine it is used with -/
 structure ObjsS (δ : Type) where
   dist : Nat → Option δ
-  var : Nat → Option δ
+  var : Nat → Option (δ × Bool)
 
 def ObjsF.empty {δ : Type} : ObjsF δ := ⟨fun _ => none, fun _ => none⟩
 def ObjsS.empty {δ : Type} : ObjsS δ := ⟨fun _ => none, fun _ => none⟩
 
 /-- forget the fcppt wrappers -/
 def ObjsF.erase {δ : Type} (s : ObjsF δ) : ObjsS δ :=
-  ⟨fun n => (s.dist n).map (·.dist), fun n => (s.var n).map (·.distribution.dist)⟩
+  ⟨fun n => (s.dist n).map (·.dist), fun n => (s.var n).map (fun v => (v.1.distribution.dist, v.2))⟩
 
 def need {α : Type} : Option α → M α
   | some a => .ok a
   | none => .error .emptyDeref
+
+/-- the two generator states; `pick w` is the one a reference with tag `w` refers to -/
+def pick {γ : Type} (w : Bool) (gs : γ × γ) : γ := if w then gs.2 else gs.1
+def put {γ : Type} (w : Bool) (gs : γ × γ) (g : γ) : γ × γ := if w then (gs.1, g) else (g, gs.2)
 
 section script
 variable {β δ γ : Type}
 
 /-- fcppt side of one step.  `out` is `operator<<` of the wrapped distribution (a parameter like the
 distribution itself): `basic`'s `operator<<` is `stream << dist.distribution()`. -/
-def stepF (D : StdDist β δ) (out : δ → String) (ty : Ty) (G : Gen γ) (a : Act β) (s : ObjsF δ) (g : γ) :
-    M (List (Ev (DVal β) β) × ObjsF δ × γ) :=
+def stepF (D : StdDist β δ) (out : δ → String) (ty : Ty) (G : Gen γ) (a : Act β) (s : ObjsF δ) (g : γ × γ) :
+    M (List (Ev (DVal β) β) × ObjsF δ × (γ × γ)) :=
   match a with
   | .newP i p => .ok ([], { s with dist := upd s.dist i (some (Basic.ctor D p)) }, g)
   | .new2 i t1 t2 => .ok ([], { s with dist := upd s.dist i (some (Basic.ctor2 D t1 t2)) }, g)
@@ -375,11 +380,11 @@ def stepF (D : StdDist β δ) (out : δ → String) (ty : Ty) (G : Gen γ) (a : 
     match s.dist i, s.dist j with
     | some di, some dj => .ok ([], { s with dist := upd (upd s.dist i (some dj)) j (some di) }, g)
     | _, _ => .error .emptyDeref
-  | .draw i =>
+  | .draw i w =>
     match s.dist i with
     | some d =>
-      let r := Basic.draw D ty G d g
-      .ok ([.val r.1], { s with dist := upd s.dist i (some r.2.1) }, r.2.2)
+      let r := Basic.draw D ty G d (pick w g)
+      .ok ([.val r.1], { s with dist := upd s.dist i (some r.2.1) }, put w g r.2.2)
     | none => .error .emptyDeref
   | .reset i =>
     match s.dist i with
@@ -397,11 +402,11 @@ def stepF (D : StdDist β δ) (out : δ → String) (ty : Ty) (G : Gen γ) (a : 
     match s.dist i with
     | some d => .ok ([.look (Basic.min D ty d) (Basic.max D ty d) (D.param d.dist) (out d.dist)], s, g)
     | none => .error .emptyDeref
-  | .varD k i =>
+  | .varD k i w =>
     match s.dist i with
-    | some d => .ok ([], { s with var := upd s.var k (some (Variate.ctor d)) }, g)
+    | some d => .ok ([], { s with var := upd s.var k (some (Variate.ctor d, w)) }, g)
     | none => .error .emptyDeref
-  | .varP k p => .ok ([], { s with var := upd s.var k (some (Variate.ctorParam D p)) }, g)
+  | .varP k p w => .ok ([], { s with var := upd s.var k (some (Variate.ctorParam D p, w)) }, g)
   | .varCopy k l assign =>
     match s.var l, (if assign then (s.var k).isSome else true) with
     | some v, true => .ok ([], { s with var := upd s.var k (some v) }, g)
@@ -409,17 +414,17 @@ def stepF (D : StdDist β δ) (out : δ → String) (ty : Ty) (G : Gen γ) (a : 
   | .vdraw k =>
     match s.var k with
     | some v =>
-      let r := Variate.draw D ty G v g
-      .ok ([.val r.1], { s with var := upd s.var k (some r.2.1) }, r.2.2)
+      let r := Variate.draw D ty G v.1 (pick v.2 g)
+      .ok ([.val r.1], { s with var := upd s.var k (some (r.2.1, v.2)) }, put v.2 g r.2.2)
     | none => .error .emptyDeref
-  | .raw =>
-    let r := G.next g
-    .ok ([.raw r.1], s, r.2)
+  | .raw w =>
+    let r := G.next (pick w g)
+    .ok ([.raw r.1], s, put w g r.2)
 
 /-- std side of one step: the same program written against the bare standard distribution, parameters
 given in the base type -/
-def stepS (D : StdDist β δ) (out : δ → String) (G : Gen γ) (a : Act β) (s : ObjsS δ) (g : γ) :
-    M (List (Ev β β) × ObjsS δ × γ) :=
+def stepS (D : StdDist β δ) (out : δ → String) (G : Gen γ) (a : Act β) (s : ObjsS δ) (g : γ × γ) :
+    M (List (Ev β β) × ObjsS δ × (γ × γ)) :=
   match a with
   | .newP i p => .ok ([], { s with dist := upd s.dist i (some (D.ofParam (undecorate p.fst, undecorate p.snd))) }, g)
   | .new2 i t1 t2 => .ok ([], { s with dist := upd s.dist i (some (D.ofParam (undecorate t1, undecorate t2))) }, g)
@@ -431,11 +436,11 @@ def stepS (D : StdDist β δ) (out : δ → String) (G : Gen γ) (a : Act β) (s
     match s.dist i, s.dist j with
     | some di, some dj => .ok ([], { s with dist := upd (upd s.dist i (some dj)) j (some di) }, g)
     | _, _ => .error .emptyDeref
-  | .draw i =>
+  | .draw i w =>
     match s.dist i with
     | some d =>
-      let r := D.draw G d g
-      .ok ([.val r.1], { s with dist := upd s.dist i (some r.2.1) }, r.2.2)
+      let r := D.draw G d (pick w g)
+      .ok ([.val r.1], { s with dist := upd s.dist i (some r.2.1) }, put w g r.2.2)
     | none => .error .emptyDeref
   | .reset i =>
     match s.dist i with
@@ -453,11 +458,11 @@ def stepS (D : StdDist β δ) (out : δ → String) (G : Gen γ) (a : Act β) (s
     match s.dist i with
     | some d => .ok ([.look (D.min d) (D.max d) (D.param d) (out d)], s, g)
     | none => .error .emptyDeref
-  | .varD k i =>
+  | .varD k i w =>
     match s.dist i with
-    | some d => .ok ([], { s with var := upd s.var k (some d) }, g)
+    | some d => .ok ([], { s with var := upd s.var k (some (d, w)) }, g)
     | none => .error .emptyDeref
-  | .varP k p => .ok ([], { s with var := upd s.var k (some (D.ofParam (undecorate p.fst, undecorate p.snd))) }, g)
+  | .varP k p w => .ok ([], { s with var := upd s.var k (some (D.ofParam (undecorate p.fst, undecorate p.snd), w)) }, g)
   | .varCopy k l assign =>
     match s.var l, (if assign then (s.var k).isSome else true) with
     | some v, true => .ok ([], { s with var := upd s.var k (some v) }, g)
@@ -465,15 +470,15 @@ def stepS (D : StdDist β δ) (out : δ → String) (G : Gen γ) (a : Act β) (s
   | .vdraw k =>
     match s.var k with
     | some v =>
-      let r := D.draw G v g
-      .ok ([.val r.1], { s with var := upd s.var k (some r.2.1) }, r.2.2)
+      let r := D.draw G v.1 (pick v.2 g)
+      .ok ([.val r.1], { s with var := upd s.var k (some (r.2.1, v.2)) }, put v.2 g r.2.2)
     | none => .error .emptyDeref
-  | .raw =>
-    let r := G.next g
-    .ok ([.raw r.1], s, r.2)
+  | .raw w =>
+    let r := G.next (pick w g)
+    .ok ([.raw r.1], s, put w g r.2)
 
 def runScriptF (D : StdDist β δ) (out : δ → String) (ty : Ty) (G : Gen γ) :
-    List (Act β) → ObjsF δ → γ → M (List (Ev (DVal β) β) × ObjsF δ × γ)
+    List (Act β) → ObjsF δ → γ × γ → M (List (Ev (DVal β) β) × ObjsF δ × (γ × γ))
   | [], s, g => .ok ([], s, g)
   | a :: as, s, g =>
     match stepF D out ty G a s g with
@@ -484,7 +489,7 @@ def runScriptF (D : StdDist β δ) (out : δ → String) (ty : Ty) (G : Gen γ) 
       | .ok rs => .ok (r.1 ++ rs.1, rs.2.1, rs.2.2)
 
 def runScriptS (D : StdDist β δ) (out : δ → String) (G : Gen γ) :
-    List (Act β) → ObjsS δ → γ → M (List (Ev β β) × ObjsS δ × γ)
+    List (Act β) → ObjsS δ → γ × γ → M (List (Ev β β) × ObjsS δ × (γ × γ))
   | [], s, g => .ok ([], s, g)
   | a :: as, s, g =>
     match stepS D out G a s g with
